@@ -279,7 +279,7 @@ impl TypedProp for C13 {
     fn info(&self) -> PropInfo {
         PropInfo {
             level: "exploration",
-            rule: "pure part (exhaustive per table): for each override table (2 hand-written + tables drawn by the seed over 4 non-modifier keys and all subsets of the 8 modifiers) every ordered list of up to 4 distinct keys of the 12-key universe is given to the real Overrides::override_keys (table compiled by the real parser) and the resulting key set compared with the reference (most modifiers wins, modifiers and key replaced by the outputs, other keys untouched). Where a modifier is listed after the key the statement does not say whether it counts: both readings are accepted there. Pipeline part: random press/release histories over the 12 keys (half of them over the keys of one override's combination plus one more modifier and one more key only, so that the combination is formed and abandoned repeatedly) through the whole state machine, override-release-on-activation on/off: at every quiescent point the OS key set equals the reference applied to the keys the layout holds; at every millisecond a key that goes down at the OS without having been physically down in the 8 ms before is the output of an override whose whole input combination was physically down in that window; nothing is down at the end. Non-trivial: >= 2 overrides share the non-modifier key of the list / history, or a modifier outside every matching combination is held. Distinct: hash of (table, list | history).",
+            rule: "pure part (exhaustive per table): for each override table (2 hand-written + tables drawn by the seed over 4 non-modifier keys and all subsets of the 8 modifiers) every ordered list of up to 4 distinct keys of the 12-key universe is given to the real Overrides::override_keys (table compiled by the real parser) and the resulting key set compared with the reference (most modifiers wins, modifiers and key replaced by the outputs, other keys untouched). Where a modifier is listed after the key the statement does not say whether it counts: both readings are accepted there. Pipeline part: random press/release histories over the 12 keys (half of them over the keys of one override's combination plus one more modifier and one more key only, so that the combination is formed and abandoned repeatedly) through the whole state machine, override-release-on-activation on/off: at every quiescent point the OS key set equals the reference applied to the keys the layout holds; at every millisecond a key that goes down at the OS without having been physically down in the 8 ms before is the output of an override whose whole input combination was physically down in that window; keys that were all pressed after the last moment at which an override's combination was physically complete come out exactly as pressed; nothing is down at the end. Non-trivial: >= 2 overrides share the non-modifier key of the list / history, or a modifier outside every matching combination is held. Distinct: hash of (table, list | history).",
             assumptions: vec!["ties between overrides with equally many modifiers are not decided by the statement: any of them is accepted".into()],
             extra: BTreeMap::new(),
         }
@@ -470,7 +470,19 @@ impl TypedProp for C13 {
                 };
                 // (tick, keys physically down from then on)
                 let mut phys_log: Vec<(u64, BTreeSet<u16>)> = vec![(0, BTreeSet::new())];
+                // physical truth beyond modifiers: the tick until which some override's whole input combination
+                // was physically down, and when each key that is down was pressed
+                let combos: Vec<Vec<u16>> = case.table.iter().map(|e| (0..8).filter(|b| e.in_mods & (1 << b) != 0).map(|b| code_of(MODS[b])).chain([code_of(INS[e.in_key % INS.len()])]).collect()).collect();
+                let mut last_combo_time: Option<u64> = None;
+                let mut pressed_at: std::collections::BTreeMap<u16, u64> = Default::default();
+                let mut fresh_fail: Option<Fail> = None;
                 for (i, ev) in case.hist.iter().enumerate() {
+                    if matches!(ev, Ev::Press(_) | Ev::Release(_)) && combos.iter().any(|c| c.iter().all(|k| phys.contains(k))) {
+                        last_combo_time = Some(sim.ticks);
+                    }
+                    if let Ev::Press(k) = ev {
+                        pressed_at.insert(*k, sim.ticks);
+                    }
                     match ev {
                         Ev::Press(k) => {
                             phys.insert(*k);
@@ -494,6 +506,35 @@ impl TypedProp for C13 {
                     let next_is_gap = matches!(case.hist.get(i + 1), Some(Ev::Gap(_)) | None);
                     if next_is_gap && !case.release_on_activation {
                         check(&mut sim, &mut os, &mut applied, &format!("event #{i}"));
+                    }
+                    // keys pressed after the last moment at which any override's combination was physically
+                    // complete are outside every combination: the OS sees exactly them
+                    if next_is_gap
+                        && !combos.iter().any(|c| c.iter().all(|k| phys.contains(k)))
+                        && phys.iter().all(|k| last_combo_time.map_or(true, |t| pressed_at.get(k).copied().unwrap_or(0) > t))
+                    {
+                        for _ in 0..40 {
+                            if sim.k.layout.b().queue.is_empty() {
+                                break;
+                            }
+                            sim.tick();
+                        }
+                        sim.tick_n(3);
+                        for o in &sim.outs[applied..] {
+                            os.apply(o);
+                        }
+                        applied = sim.outs.len();
+                        if os.keys != phys && fresh_fail.is_none() {
+                            fresh_fail = Some(Fail {
+                                sig: "mismatch:override-touches-keys-outside-every-combination".into(),
+                                detail: format!(
+                                    "{text}after event #{i} the keys {:?} are physically held, all pressed after the last moment an override's combination was complete, but the OS sees {:?}\noutput: {}",
+                                    phys.iter().map(|c| out_name(*c)).collect::<Vec<_>>(),
+                                    os.keys.iter().map(|c| out_name(*c)).collect::<Vec<_>>(),
+                                    crate::sim::fmt_outs(&sim.outs)
+                                ),
+                            });
+                        }
                     }
                     // "when the combination ends ... modifiers that are still held come back":
                     // with no non-modifier key physically held no override can be active, so the OS
@@ -561,6 +602,8 @@ impl TypedProp for C13 {
                 if let Some(f) = fail {
                     v.fail = Some(f);
                 } else if let Some(f) = phys_fail {
+                    v.fail = Some(f);
+                } else if let Some(f) = fresh_fail {
                     v.fail = Some(f);
                 } else if let Some(f) = transient_fail {
                     v.fail = Some(f);
